@@ -56,6 +56,12 @@ class ExternMixin:
     def bi_f32_overflow(self, args, kw, node):
         return VB(self.ufunc('f32_overflow', OPQ, BOOL)(self.as_opq(args[0])))
 
+    def bi_in_seq(self, args, kw, node):
+        return VB(z3.Contains(self.list_as_seq(args[1]), z3.Unit(self.elem_code(args[0]))))
+
+    def bi_fresh_refs(self, args, kw, node):
+        return SV('seq', self.sym('refs', SEQ), 'ref')
+
     def bi_all_ascii(self, args, kw, node):
         return VB(self.all_ascii(self.as_seq(args[0])))
 
